@@ -1478,11 +1478,15 @@ class Repository:
                 with glock:
                     digests = files_digests[file_path]
                     digests.remove(digest)
-
-                if not digests:
-                    logger.info('Finished writing file %s', file_path)
-                    with glock:
+                    # Decide whether this was the last chunk of the file while still
+                    # holding the lock: two loader threads removing the last two
+                    # digests would otherwise both see the empty set
+                    finished = not digests
+                    if finished:
                         restore_path, metadata = files_metadata.pop(file_path)
+
+                if finished:
+                    logger.info('Finished writing file %s', file_path)
                     self.restore_metadata(restore_path, metadata)
                     finished_tracker.update()
 
